@@ -157,3 +157,71 @@ def handles():
         parts.append(f.read())
     parts.append('\n} // verus!\nfn main() {}\n')
     return ''.join(parts)
+
+
+# ---------------------------------------------------------------------------------------------------------------
+# U_readers: Allocator trait default methods (arena-level readers, slice constructors, checksum)
+# ---------------------------------------------------------------------------------------------------------------
+RD_INTS = [('u16', 2), ('u32', 4), ('u64', 8), ('u128', 16), ('i16', 2), ('i32', 4), ('i64', 8), ('i128', 16)]
+RD_VARINT = [('i16', 3), ('i32', 5), ('i64', 10), ('i128', 19), ('u16', 3), ('u32', 5), ('u64', 10), ('u128', 19)]
+TRAIT_SCOPE = 'pub trait Allocator: sealed::Sealed {'
+
+
+def readers():
+    with open(os.path.join(UNITS, 'U_readers.head.rs')) as f:
+        parts = [f.read()]
+    for ty, sz in RD_INTS:
+        for o in ('be', 'le'):
+            parts.append('''
+pub uninterp spec fn spec_from_%(o)s_%(ty)s(s: Seq<u8>) -> %(ty)s;
+#[verifier::external_body]
+pub fn from_%(o)s_bytes_%(ty)s(s: &[u8]) -> (r: %(ty)s)
+  requires s@.len() == %(sz)d, // [C15]
+  ensures r == spec_from_%(o)s_%(ty)s(s@)
+{ %(ty)s::from_%(o)s_bytes(s.try_into().unwrap()) }
+''' % dict(ty=ty, sz=sz, o=o))
+    for ty, n in RD_VARINT:
+        parts.append('''
+/// dbutils::leb128::decode_%(ty)s_varint (dependency, trusted): looks at nothing but `buf`
+#[verifier::external_body]
+pub fn decode_varint_%(ty)s(buf: &[u8]) -> (r: Result<(usize, %(ty)s), Error>)
+  ensures r matches Ok(p) ==> 1 <= p.0 <= buf@.len() && p.1 == spec_varint_%(ty)s(buf@.subrange(0, p.0 as int)),
+{ unimplemented!() }
+pub uninterp spec fn spec_varint_%(ty)s(s: Seq<u8>) -> %(ty)s;
+''' % dict(ty=ty))
+    parts.append('\nimpl Rd {\n')
+    for ty, sz in RD_INTS:
+        for o in ('be', 'le'):
+            parts.append('''
+//@@fn file=allocator.rs src=expanded scope="%(scope)s" name=get_%(ty)s_%(o)s xlate=plain props=C15
+//@subst /let buf = unsafe \\{\\s*let ptr = self\\.raw_ptr\\(\\)\\.add\\((.+?)\\);\\s*core::slice::from_raw_parts\\(ptr, (.+?)\\)\\s*\\}\\s*;/ => let buf = self.mem_read(\\1, \\2);
+//@subst /%(ty)s::from_(be|le)_bytes\\(buf\\.try_into\\(\\)\\.unwrap\\(\\)\\)/ => from_\\1_bytes_%(ty)s(buf)
+//@contract
+  requires self.inv(),
+  ensures
+    r.is_err() <==> offset as int + %(sz)d > self.allocated as int, // [C15]
+    r matches Err(e) ==> e matches Error::OutOfBounds { .. }, // [C15]
+    r matches Ok(v) ==> v == spec_from_%(o)s_%(ty)s(self.mem@.subrange(offset as int, offset as int + %(sz)d)), // [C15]
+//@after 1 /let SIZE: usize/
+    proof { broadcast use vstd::layout::layout_of_primitives; }
+//@@end
+''' % dict(scope=TRAIT_SCOPE, ty=ty, sz=sz, o=o))
+    for ty, n in RD_VARINT:
+        parts.append('''
+//@@fn file=allocator.rs src=expanded scope="%(scope)s" name=get_%(ty)s_varint xlate=plain props=C15
+//@subst /let buf = unsafe \\{\\s*let ptr = self\\.get_pointer\\((.+?)\\);\\s*let gap = (.+?);\\s*core::slice::from_raw_parts\\(ptr, gap\\)\\s*\\}\\s*;/ => let gap = \\2; let buf = self.mem_read(\\1, gap);
+//@subst /dbutils::leb128::decode_%(ty)s_varint\\(buf\\)\\.map_err\\(Into::into\\)/ => decode_varint_%(ty)s(buf)
+//@contract
+  requires self.inv(),
+  ensures
+    offset >= self.allocated ==> r matches Err(Error::OutOfBounds { .. }), // [C15]
+    r matches Ok(p) ==> offset as int + p.0 as int <= self.allocated as int && p.0 <= %(n)d
+      && p.1 == spec_varint_%(ty)s(self.mem@.subrange(offset as int, offset as int + min_int(self.allocated as int - offset as int, %(n)d)).subrange(0, p.0 as int)), // [C15]
+//@after 1 /let buf = self\\.mem_read/
+    let ghost gapv = gap;
+//@@end
+''' % dict(scope=TRAIT_SCOPE, ty=ty, n=n))
+    with open(os.path.join(UNITS, 'U_readers.fns.tpl')) as f:
+        parts.append(f.read().replace('%SCOPE%', TRAIT_SCOPE))
+    parts.append('\n} // impl Rd\n\n} // verus!\nfn main() {}\n')
+    return ''.join(parts)
